@@ -226,6 +226,11 @@ def serialize(res: UnitResult, tag: str = "") -> dict:
         name = ob.name if not tag else ob.name.rsplit("/p", 1)[0] + f"/{tag}p{ob.path}"
         watch = {k: (v.sexpr() if hasattr(v, "sexpr") else str(v)) for k, v in (ob.meta.get("watch") or {}).items()}
         meta = {k: v for k, v in ob.meta.items() if k not in ("watch",)}
+        trivially_true = ob.goal is True or (z3.is_expr(ob.goal) and z3.is_true(ob.goal))
+        if trivially_true and ob.kind != "canary":
+            meta["pre_verdict"] = "unsat"  # the goal is literally `true` on this path: nothing to ask a solver
+            obs.append({"name": name, "kind": ob.kind, "path": ob.path, "smt2": "", "watch": {}, "meta": meta})
+            continue
         obs.append({"name": name, "kind": ob.kind, "path": ob.path, "smt2": to_smt2(ob), "watch": watch, "meta": meta})
     return {
         "found": res.found, "file": res.file, "lines": list(res.lines), "src_hash": res.src_hash, "obligations": obs, "undecided": res.undecided,
